@@ -3,6 +3,14 @@
 import json
 
 CLAIMS = {
+ "C15": dict(cat="model_checking", design="6 C15",
+  text="All operation histories of length <=3 (quick) / <=4 (thorough) over 14 load/run/cancel operations are executed on the real code built with a sync.Pool shim in which the answer of EVERY pool Get (parser, task, point, metadata pools) is an explorer choice: the default LIFO reuse, then every deviation (any other pooled object or a fresh one) at every Get, up to 2 deviations per history — 1.6 million executions in the quick tier. The last operation's outcome must equal the outcome of the same operation executed first with empty pools; loaded scripts are shared across all histories.",
+  note="Assumes pools and loaded syntax trees are the only state surviving an operation (package-level variables are covered by C16's shared-state hash). Real sync.Pool may also drop objects at GC, which is the 'fresh' answer.",
+  tech="explicit-state search over operation histories with exhaustively enumerated pool answers (deviation-bounded) on the real code"),
+ "C16": dict(cat="model_checking", design="6 C16",
+  text="(1) Shared-write freedom, exhaustive over the operation alphabet: the deep hash of the loaded scripts and of every package-level variable of the 9 repo packages must not change across any operation (first execution in a fresh process, alone, and in every ordered pair) unless it took a lock. (2) Controlled scheduler over the pool shim: all 28 pairs with <=2 preemptions and all 84 triples with <=1 (thorough 3/2) at every pool/lock operation, about 20000 schedules quick; per schedule: results equal the alone-run, no panic/deadlock, pool ownership discipline, shared hash unchanged. (3) A separate free-running -race pass over all pairs, triples and 8/16-thread fan-outs, explicitly non-exhaustive.",
+  note="Data-race freedom in the memory-model sense leans on (1) plus the race-detector pass; (1) cannot see a store that writes the value already there after the first execution. Scheduling points are pool/lock operations only, justified by (1).",
+  tech="stateless exploration under a cooperative scheduler (preemption-bounded DFS) + exhaustive shared-state invariant; complementary race-detector sampling"),
  "C09": dict(cat="model_checking", design="6 C09",
   text="All script sets of 1..3 scripts over 33 variants each (valid with <=2 ordered use targets incl. a missing name, unparsable, check-failing) under ALL parse orders x ALL link orders of the loader's two map iterations, and 4-script sets (<=1 use each quick, all 33^4 thorough) under all 24 link orders — 1.5 million fresh ParseScript runs in the quick tier. The real driver is used unchanged except that its two range statements iterate a harness-chosen order (build-time overlay generated from the current sources). Verdicts must equal graph reachability (hence be order-independent), use calls must be bound to the accepted script objects, and error chains must be root cause + call sites with every entry inside the file it names. The unmodified map order is run 8x on a third of the 3-script sets to tie the seam to the real driver.",
   note="If the overlay pattern no longer matches (refactored loader) the check says so and reports exhaustive:false. Names are opaque to the linker except through map order, which is controlled.",
